@@ -437,3 +437,65 @@ func seq(lo, hi int) []int {
 	}
 	return out
 }
+
+// (d) password presence under a password-hash value outside the three listed ones.
+//
+// PasswordHashAlgorithm is an int: a hand-built configuration can carry 4, 7, -1. Whether such a suite is usable and
+// which lengths it admits is not pinned by the statement (unclassified); that a selected password must be PRESENT is:
+// an absent (nil or empty) password is never admitted when the suite selects the password.
+type c14OddPCase struct {
+	Cfg    ref.OCRACfg `json:"cfg"`
+	PLen   int         `json:"p_len"` // -1 nil, 0 empty
+	OddP   int         `json:"odd_password_hash"`
+	Others [4]int      `json:"other_lens"`
+}
+
+func checkC14OddP(c c14OddPCase) verdict {
+	lc := toLib(c.Cfg)
+	lc.PasswordHash = otp.PasswordHashAlgorithm(c.OddP)
+	in := otp.OCRAInput{Counter: mk(c.Others[0], 1), Challenge: mk(c.Others[1], 2), Password: mk(c.PLen, 3), SessionInfo: mk(c.Others[2], 4), Timestamp: mk(c.Others[3], 5)}
+	labels := []string{fmt.Sprintf("password_hash=%d", c.OddP), fmt.Sprintf("p_len=%d", c.PLen)}
+	if lc.Validate() != nil {
+		labels = append(labels, "suite-refused")
+	}
+	if e := in.Validate(lc); e == nil {
+		return bad(true, labels, "OCRAInput.Validate admits an absent password (len %d) for a suite that selects the password (password hash value %d): %+v", c.PLen, c.OddP, lc)
+	}
+	if code, err := otp.GenerateOCRA(c14Secret, lc, in); err == nil {
+		return bad(true, labels, "GenerateOCRA returned %q with an absent password (len %d) for a suite that selects the password (password hash value %d): %+v", code, c.PLen, c.OddP, lc)
+	}
+	for _, code := range []string{"0000000000"[:c.Cfg.Digits], "1234567890"[:c.Cfg.Digits]} {
+		if okk, err := otp.ValidateOCRA(c14Secret, code, lc, in); okk || err == nil {
+			return bad(true, labels, "ValidateOCRA answered (%v, %v) with an absent password for a suite that selects the password (password hash value %d)", okk, err, c.OddP)
+		}
+	}
+	return ok(true, labels...)
+}
+
+var c14OddP = newPart("C14", "password-presence-odd-hash",
+	"complete: the 16 field subsets containing P x 3 challenge formats x password-hash values {-1,4,5,7,255,2^31} (outside the listed 1..3) x password {nil, empty} with all other selected fields admissible; oracle (one-directional, from 'the password hash is present'): OCRAInput.Validate, GenerateOCRA and ValidateOCRA never admit the absent password; usability of such a suite and admitted lengths of a present password are unclassified; every case distinct",
+	checkC14OddP)
+
+func TestC14_PasswordPresenceOddHash(t *testing.T) {
+	rec := c14OddP.rec()
+	defer rec.Flush()
+	i := 0
+	for mask := 0; mask < 32; mask++ {
+		if mask&4 == 0 {
+			continue
+		}
+		for _, qf := range []int{1, 3, 6} {
+			for _, odd := range []int{-1, 4, 5, 7, 255, 1 << 31} {
+				for _, pl := range []int{-1, 0} {
+					i++
+					if !ev.Mine(i) {
+						continue
+					}
+					cfg := ref.OCRACfg{Raw: "x", Hash: i % 3, Digits: 4 + i%7, C: mask&1 != 0, Q: mask&2 != 0, P: true, S: mask&8 != 0, T: mask&16 != 0, QFormat: qf, PHash: 1, TimeStep: 30, SessionNN: -1}
+					c14OddP.each(t, c14OddPCase{Cfg: cfg, PLen: pl, OddP: odd, Others: [4]int{8, ref.QMin(qf) + 2, 11, 8}})
+				}
+			}
+		}
+	}
+	rec.Exhaustive()
+}
